@@ -67,6 +67,9 @@ type PrepareSpec struct {
 	Cmd       string            `json:"cmd"`       // invoked as: cmd <outdir> <tier>
 	Overlays  map[string]string `json:"overlays"`  // outdir subdir -> /repo relative package dir
 	Harnesses string            `json:"harnesses"` // JSON file (in outdir) with additional harness entries
+	// Soft: the emitted code is only a vehicle for this property (C02 over emitted decoders): a failing
+	// prepare step or emitted code that does not compile is an inconclusive run, not a violation.
+	Soft bool `json:"soft"`
 }
 
 type KnownFinding struct {
@@ -251,7 +254,7 @@ func (d *Driver) prepare(ov map[string][]byte, files map[string]string) error {
 	d.prepDir = dir
 	out, err := execOutput(p.Cmd, dir, d.tier)
 	if err != nil {
-		if ee, ok := err.(*exec.ExitError); ok && ee.ExitCode() == 3 {
+		if ee, ok := err.(*exec.ExitError); ok && ee.ExitCode() == 3 && !p.Soft {
 			// the prepare step's own concrete by-product check failed (e.g. regeneration differs)
 			return &prepViolation{msg: trunc(out, 3000)}
 		}
@@ -314,7 +317,7 @@ func (d *Driver) load() error {
 		}
 	})
 	if len(errs) > 0 {
-		if d.spec.Prepare != nil {
+		if d.spec.Prepare != nil && !d.spec.Prepare.Soft {
 			// the emitted code does not type-check against the harness generated from the same schema
 			// model: reproduce with the native compiler before reporting
 			if msg, bad := d.nativeBuildFails(); bad {
